@@ -95,6 +95,23 @@ def judge(case):
                 return "bad", "matching the instance at %s (order %s) returned %s" % (env, perm, res)
         if set(res) - set(env):
             return "bad", "matching returned extra parameters %s" % (sorted(set(res) - set(env)))
+    # the same for an instance that is LOADED from a script (the serialisation of the API-built instance), the loads before it being
+    # the template's and a hostile history of failing loads that saw parameters
+    from .. import realrun
+    kind, env, tol = envs[-1]
+    try:
+        ptext = blackbird.dumps(build_program(tmpl, env, perm))
+        realrun.hostile_history(case["seed"])
+        P = blackbird.loads(ptext)
+    except BaseException as e:      # noqa: BLE001
+        return "bad", "serialising and loading the instance at %s raised %s: %s" % (env, type(e).__name__, str(e)[:200])
+    try:
+        res = match_template(T, P)
+    except BaseException as e:      # noqa: BLE001
+        return "bad", "matching the instance at %s loaded from its script (order %s) raised %s: %s\n%s" % (env, perm, type(e).__name__, str(e)[:200], ptext)
+    for p, v in env.items():
+        if p not in res or abs(float(res[p]) - v) > tol * max(1.0, abs(v)):
+            return "bad", "matching the instance at %s loaded from its script (order %s) returned %s" % (env, perm, res)
     # the same through the template's own instantiation: T has been matched above, now it is called and its instance reordered
     for kind, env, tol in envs[:case.get("ninst", 3)]:
         try:
